@@ -388,7 +388,8 @@ func runC01(c *Ctx) {
 	}
 
 	// ---------------------------------------------------------------- R8
-	c.rule("R8", "an exchange returns only a buffer it received on its own reply channel", 4)
+	c.rule("R8", "an exchange returns only a buffer it received on its own reply channel; every exchange-shaped function of the upstream packages is covered by a named rule", 14)
+	checkExchangeFunctionsCovered(c)
 	for _, rs := range []restoreSite{{relTransport, "TraditionalDnsConn", "exchange"}, {relTransport, "reusableConn", "exchange"}, {relTransport, "quicReservedExchanger", "ExchangeReserved"}, {relDoh, "Upstream", "ExchangeContext"}} {
 		f := c.fn(rs.rel, rs.recv, rs.name)
 		if f == nil {
